@@ -34,6 +34,12 @@
 (* action          code                                                    *)
 (*  Add, AddVar    __add__ (PatchedCounts, NormalisedCounts, CorrFunc,     *)
 (*                 SampledData) -> is_compatible(require=True)             *)
+(*  IAdd, IAddVar  x = ws[i]; x += y  (no __iadd__ exists: Python falls    *)
+(*                 back to __add__, x is rebound to a NEW container and    *)
+(*                 both operands keep their value)                         *)
+(*  Accumulate     t = 0; t += x; t += y  (the accumulation idiom; 0 + x   *)
+(*                 is x itself, then as IAdd) - the result is the sum and  *)
+(*                 x, y are unchanged                                      *)
 (*  Sub, SubVar    SampledData.__sub__                                     *)
 (*  LeftAdd (RAdd) __radd__ (0 + x, 1 + x, sum([x, y]))                    *)
 (*  Mul            __mul__ (scalar classes incl. bool/None/str/container)  *)
@@ -63,6 +69,18 @@
 (*                 result is an array (bin x patch x patch), the workspace *)
 (*                 is unchanged and the history goes on with the SAME      *)
 (*                 newest container (GetArray, then Sample ...).           *)
+(*  SetPatchPair   PatchedCounts.set_patch_pair(p, q, counts_binned), on a *)
+(*                 PatchedCounts, on x.counts of a NormalisedCounts, on    *)
+(*                 cf.<member>.counts of a CorrFunc (entry.var = member,   *)
+(*                 entry.sel = <<p, q, v>>: the new counts are v + bin     *)
+(*                 number, v = 0: all zero).  The ONE operation that may   *)
+(*                 change its operand: result kind `mut`, ws[i] is         *)
+(*                 REPLACED by the updated value and every later           *)
+(*                 observation (sums, samples, arrays, ==, selections) is  *)
+(*                 the one of the updated value.  With Focus it applies to *)
+(*                 the newest count container, also directly after that    *)
+(*                 container was summed / sampled (PatchSum, Sample), and  *)
+(*                 the history goes on with the updated container.         *)
 (*  Sample         CorrFunc.sample: landy_szalay / davis_peebles           *)
 (*  Redshift       RedshiftData.from_corrfuncs / from_corrdata             *)
 (*  Normalise      HistData.normalised / RedshiftData.normalised           *)
@@ -105,6 +123,7 @@ CONSTANTS Scenarios,   \* set of [level, nb, np, auto, mem, seed, closed, zero]
           MaxDepth,    \* length of the histories
           Focus,       \* TRUE: an operation uses the newest container
           SelSet,      \* "full" | "small": index/slice selections explored
+          Stages,      \* <<>> or a sequence of sets of operations: step n of a history is taken from Stages[n]
           Deviations,
           Emit         \* TRUE: print every step for the replay driver
 
@@ -213,6 +232,7 @@ ROpen(v, E)  == [RBase EXCEPT !.out = "open", !.v = v, !.exc = E]
 RAlts(l)     == [RBase EXCEPT !.out = "alts", !.v = l[1], !.items = l]
 RNz(l)       == [RBase EXCEPT !.out = "nz",   !.items = l]
 RArr(arr)    == [RBase EXCEPT !.out = "arr",  !.items = arr]   \* items[b][i][j]: rational
+RMut(v)      == [RBase EXCEPT !.out = "mut",  !.v = v]         \* the operand itself now has value v
 RInit        == RBase
 (* the fresh operands an action creates are handed to the driver with the result *)
 WithArgs(r, args) == [r EXCEPT !.args = args]
@@ -563,6 +583,7 @@ Integral(a) == RSumF([b \in 1..NB(a) |-> RMul(RInt(Dz(a, b)), a.data[b])], NB(a)
    through the public constructors) *)
 VariantOf(a, var) ==
     CASE var = "copy"   -> a
+      [] var = "fresh"  -> a     \* an equal container built anew through the constructors (not a copy of the object)
       [] var = "counts" ->
             IF a.k \in DataLevels THEN [a EXCEPT !.data[1] = RAdd(@, RInt(1))]
             ELSE IF a.k = "SW" THEN [a EXCEPT !.parts[FirstM(a)].sw1[1][1] = @ + 1]
@@ -612,7 +633,8 @@ VariantsFor(a) ==
     \cup (IF a.k \in DataLevels THEN {"samples"} ELSE {})
     \cup (IF a.k = "CF" /\ (DOMAIN a.parts) # {"dd", "dr", "rd", "rr"} THEN {"mem+"} ELSE {})
     \cup (IF a.k = "CF" /\ Cardinality(DOMAIN a.parts) > 2 THEN {"mem-"} ELSE {})
-EqVariantsFor(a) == (VariantsFor(a) \cup {"closed", "auto"}) \ (IF a.k \in DataLevels THEN {"auto"} ELSE {})
+EqVariantsFor(a) == (VariantsFor(a) \cup {"closed", "auto"} \cup (IF a.k \in PatchLevels THEN {"fresh"} ELSE {}))
+                    \ (IF a.k \in DataLevels THEN {"auto"} ELSE {})
 
 (* constructor shape classes: TRUE = must be accepted *)
 ShapeClasses(lv) ==
@@ -645,17 +667,20 @@ Init == /\ scen \in Scenarios
    (nothing new can be learnt after a bool / rejection: purity is checked at once)
    or handed out an array of the newest container (GetArray: the caller holds a
    view of the container's numbers; what follows uses the same container) *)
-Extendable == ~Focus \/ hist = <<>> \/ res.out \in {"val", "alts", "arr"}
+Extendable == ~Focus \/ hist = <<>> \/ res.out \in {"val", "alts", "arr", "mut"}
 
 Step(entry, r) ==
     /\ Len(hist) < MaxDepth /\ Extendable
     /\ entry.op \in Ops
+    /\ (Stages # <<>> => Len(hist) < Len(Stages) /\ entry.op \in Stages[Len(hist) + 1])
     /\ hist' = Append(hist, entry)
     /\ res' = r
-    /\ ws' = IF r.out \in {"val", "alts"} THEN Append(ws, r.v) ELSE ws
+    /\ ws' = IF r.out \in {"val", "alts"} THEN Append(ws, r.v)
+             ELSE IF r.out = "mut" THEN [ws EXCEPT ![entry.i] = r.v] ELSE ws
     /\ UNCHANGED scen
 
-Newest == Len(ws)
+(* the container the history goes on with: the one just produced, or the one just updated in place *)
+Newest == IF hist # <<>> /\ res.out = "mut" THEN hist[Len(hist)].i ELSE Len(ws)
 Focused(i, j) == ~Focus \/ i = Newest \/ j = Newest
 Idx == 1..Len(ws)
 
@@ -663,6 +688,23 @@ Add(i, j)  == /\ Focused(i, j) /\ ws[i].k # "SW"
               /\ Step(HEntry("Add", i, j, "", NoSel, NoScalar, FALSE), AddOf(ws[i], ws[j], 1))
 Sub(i, j)  == /\ Focused(i, j) /\ ws[i].k \in DataLevels
               /\ Step(HEntry("Sub", i, j, "", NoSel, NoScalar, FALSE), AddOf(ws[i], ws[j], -1))
+(* x = ws[i]; x += ws[j]: the value of x afterwards *)
+IAdd(i, j) == /\ Focused(i, j) /\ ws[i].k # "SW"
+              /\ Step(HEntry("IAdd", i, j, "", NoSel, NoScalar, FALSE), AddOf(ws[i], ws[j], 1))
+IAddVars == {"counts", "samples", "edges", "npatch", "othersw", "type"}
+IAddVar(i, var) ==
+    /\ Focused(i, i) /\ ws[i].k # "SW" /\ var \in VariantsFor(ws[i]) \cap IAddVars
+    /\ Step(HEntry("IAddVar", i, 0, var, NoSel, NoScalar, FALSE),
+            WithArgs(AddOf(ws[i], VariantOf(ws[i], var), 1), <<VariantOf(ws[i], var)>>))
+(* t = 0; t += ws[i]; t += y with y = ws[j] (j > 0) or a fresh variant of ws[i] *)
+AccVars == {"counts", "othersw", "npatch"}
+Accumulate(i, j, var) ==
+    /\ Focused(i, IF j = 0 THEN i ELSE j) /\ ws[i].k \in {"PC", "NC"}
+    /\ (j = 0) # (var = "")
+    /\ (j = 0 => var \in VariantsFor(ws[i]) \cap AccVars)
+    /\ Step(HEntry("Accumulate", i, j, var, NoSel, NoScalar, FALSE),
+            IF j # 0 THEN AddOf(ws[i], ws[j], 1)
+            ELSE WithArgs(AddOf(ws[i], VariantOf(ws[i], var), 1), <<VariantOf(ws[i], var)>>))
 (* rev: the fresh variant is the LEFT operand *)
 AddVar(i, var, rev) ==
     /\ Focused(i, i) /\ ws[i].k # "SW" /\ var \in VariantsFor(ws[i])
@@ -720,6 +762,33 @@ IterPatches(i) ==
 PatchSum(i) ==
     /\ Focused(i, i) /\ ws[i].k \in {"PC", "SW", "NC"}
     /\ Step(HEntry("PatchSum", i, 0, "", NoSel, NoScalar, FALSE), PatchSumOf(ws[i]))
+(* set_patch_pair(p, q, counts_binned) on the PatchedCounts of member m; indices 1-based here *)
+PairValue(v, b) == IF v = 0 THEN 0 ELSE v + b
+SetPatchPairOf(a, m, p, q, v) ==
+    RMut([a EXCEPT !.parts[m].cnt = [b \in 1..NB(a) |-> [i \in 1..NP(a) |-> [j \in 1..NP(a) |->
+             IF i = p /\ j = q THEN a.den * PairValue(v, b) ELSE a.parts[m].cnt[b][i][j]]]]])
+(* members whose counts are edited: the container itself, dd and the last member of a CorrFunc *)
+(* (the generic quick-tier runs - small selections, no Stages - edit one pair of the first member only) *)
+FewEdits == SelSet = "small" /\ Stages = <<>>
+MutMembers(a) == IF a.k = "CF"
+                 THEN {"dd"} \cup (IF FewEdits THEN {}
+                                  ELSE {CHOOSE m \in DOMAIN a.parts : \A o \in DOMAIN a.parts : MI(m) >= MI(o)})
+                 ELSE {"x"}
+(* <<p, q, v>>: the lower triangle of an autocorrelation is never filled *)
+MutTargets(a) == IF FewEdits THEN {<<1, NP(a), 3>>}
+                 ELSE {<<1, NP(a), 3>>, <<1, 1, 0>>} \cup (IF a.auto THEN {} ELSE {<<NP(a), 1, 3>>})
+(* `0 + x` IS x (NormalisedCounts / PatchedCounts.__radd__ return self): two workspace
+   entries are then one object; such workspaces are not edited in place *)
+NoAlias == \A k \in 1..Len(hist) : ~(hist[k].op = "RAdd" /\ hist[k].j = 0 /\ hist[k].var = "")
+FocusedMut(i) ==
+    \/ ~Focus \/ i = Newest
+    \/ /\ hist # <<>> /\ res.out \in {"val", "alts"}
+       /\ hist[Len(hist)].op \in {"PatchSum", "Sample"} /\ hist[Len(hist)].i = i
+SetPatchPair(i, m, t) ==
+    /\ FocusedMut(i) /\ NoAlias /\ ws[i].k \in CountLevels
+    /\ m \in MutMembers(ws[i]) /\ t \in MutTargets(ws[i])
+    /\ Step(HEntry("SetPatchPair", i, 0, m, [t |-> "pair", lo |-> t[1], hi |-> t[2], st |-> t[3]], NoScalar, FALSE),
+            SetPatchPairOf(ws[i], m, t[1], t[2], t[3]))
 (* entry.var = "m.LV", e.g. "x.PC", "x.SW", "dd.NC", "rr.SW" *)
 GetArray(i, m, lv) ==
     /\ Focused(i, i) /\ ws[i].k \in PatchLevels /\ <<m, lv>> \in GaTargets(ws[i])
@@ -770,6 +839,11 @@ Construct(cls) ==
 
 SomeAdd       == \E i \in Idx, j \in Idx : Add(i, j)
 SomeSub       == \E i \in Idx, j \in Idx : Sub(i, j)
+SomeIAdd      == \E i \in Idx, j \in Idx : IAdd(i, j)
+SomeIAddVar   == \E i \in Idx, var \in IAddVars : IAddVar(i, var)
+SomeAccumulate == \E i \in Idx, j \in {0} \cup Idx, var \in {""} \cup AccVars : Accumulate(i, j, var)
+SomeSetPatchPair == \E i \in Idx, m \in {"x", "dd", "dr", "rd", "rr"}, p \in 1..4, q \in 1..4, v \in {0, 3} :
+                       SetPatchPair(i, m, <<p, q, v>>)
 SomeAddVar    == \E i \in Idx, var \in {"copy", "counts", "edges", "nbins", "npatch", "npatch1", "sw", "othersw",
                                           "mem+", "mem-", "type", "int1", "pynone", "samples"},
                     rev \in BOOLEAN : AddVar(i, var, rev)
@@ -779,7 +853,7 @@ SomeRAdd      == \/ \E i \in Idx, left \in {0, 1}, j \in {0} \cup Idx : LeftAdd(
                  \/ \E i \in Idx, var \in {"copy", "counts", "sw", "othersw", "npatch"} : SumVar(i, var)
 SomeMul       == \E i \in Idx, sc \in Scalars : Mul(i, sc)
 SomeEq        == \E i \in Idx, j \in Idx : Eq(i, j)
-SomeEqVar     == \E i \in Idx, var \in {"copy", "counts", "edges", "nbins", "npatch", "npatch1", "sw", "othersw",
+SomeEqVar     == \E i \in Idx, var \in {"fresh", "copy", "counts", "edges", "nbins", "npatch", "npatch1", "sw", "othersw",
                                          "mem+", "mem-", "type", "int1", "pynone", "samples",
                                          "closed", "auto"} : EqVar(i, var)
 SomeIsCompat  == \E i \in Idx, j \in Idx, req \in BOOLEAN : IsCompat(i, j, req)
@@ -803,7 +877,8 @@ SomeConstruct == \E cls \in {"ok", "ndim1", "ndim2", "ndim3", "ndim4", "ndimmixe
 
 Done == Len(hist) = MaxDepth \/ ~Extendable
 
-Next == \/ SomeAdd \/ SomeSub \/ SomeAddVar \/ SomeSubVar \/ SomeRAdd \/ SomeMul
+Next == \/ SomeIAdd \/ SomeIAddVar \/ SomeAccumulate \/ SomeSetPatchPair
+        \/ SomeAdd \/ SomeSub \/ SomeAddVar \/ SomeSubVar \/ SomeRAdd \/ SomeMul
         \/ SomeEq \/ SomeEqVar \/ SomeIsCompat \/ SomeIsCompatVar
         \/ SomeBins \/ SomePatches \/ SomeIterBins \/ SomeIterPatches
         \/ SomePatchSum \/ SomeSample \/ SomeGetArray
@@ -819,7 +894,8 @@ Spec == Init /\ [][Next]_vars
 
 All == {ws[i] : i \in Idx}
 (* every container is examined once: in the state in which it is created *)
-Containers == IF hist = <<>> \/ res.out \in {"val", "alts"} THEN {ws[Len(ws)]} ELSE {}
+Containers == IF hist = <<>> \/ res.out \in {"val", "alts"} THEN {ws[Len(ws)]}
+              ELSE IF res.out = "mut" THEN {ws[hist[Len(hist)].i]} ELSE {}
 CountC == {a \in Containers : a.k \in CountLevels}
 StructVariants == {"copy", "counts", "edges", "nbins", "npatch", "npatch1", "sw", "othersw", "mem+", "mem-", "samples"}
 Partners(a) == All \cup {VariantOf(a, var) : var \in VariantsFor(a) \cap StructVariants}
@@ -834,7 +910,7 @@ EqReflexive == \A a \in Containers : EqOfS(a, a, TRUE).b
 EqSymmetric == \A a \in Containers : \A b \in Partners(a) : EqOf(a, b).b = EqOf(b, a).b
 EqDetectsDifference ==
     \A a \in Containers : AllDefined(a) =>
-        \A var \in (EqVariantsFor(a) \ {"copy"}) : ~EqOf(a, VariantOf(a, var)).b
+        \A var \in (EqVariantsFor(a) \ {"copy", "fresh"}) : ~EqOf(a, VariantOf(a, var)).b
 
 (* a + b: counts add, binning and patches must agree, commutative, no member lost *)
 AddAddsCounts ==
@@ -980,8 +1056,10 @@ AutoValidity(mem) == IF mem = {} THEN "valid" ELSE SampleValidity({"dd"} \cup me
 
 Validity(h) ==
     LET a == ws[h.i] IN
-    CASE h.op \in {"Add", "Sub"} -> BinaryValidity(a, ws[h.j])
-      [] h.op \in {"AddVar", "SubVar"} -> BinaryValidity(a, VariantOf(a, h.var))
+    CASE h.op \in {"Add", "Sub", "IAdd"} -> BinaryValidity(a, ws[h.j])
+      [] h.op \in {"AddVar", "SubVar", "IAddVar"} -> BinaryValidity(a, VariantOf(a, h.var))
+      [] h.op = "Accumulate" -> BinaryValidity(a, IF h.j # 0 THEN ws[h.j] ELSE VariantOf(a, h.var))
+      [] h.op = "SetPatchPair" -> "valid"
       [] h.op = "RAdd" -> IF h.var # "" THEN BinaryValidity(a, VariantOf(a, h.var))
                           ELSE IF h.j # 0 THEN BinaryValidity(a, ws[h.j])
                           ELSE IF h.sel.lo = 0 THEN "valid" ELSE "invalid"
